@@ -107,6 +107,9 @@ def convert(t, var_names, assms, to_real, ctx):
                 # Python integers would get sort Int (on which / is integer division),
                 # and arithmetic on them would be evaluated by Python (/ gives a float).
                 return z3.RealVal(t.dest_number(), ctx)
+            if t.get_type() == NatType and t.is_uminus():
+                # -n is a number for every type, but uminus has no meaning on nat.
+                raise Z3Exception("convert: unsupported uminus on natural numbers " + repr(t))
             return t.dest_number()
         elif t.is_implies():
             return z3.Implies(rec(t.arg1), rec(t.arg))
@@ -135,6 +138,9 @@ def convert(t, var_names, assms, to_real, ctx):
                 return z3.If(m >= n, m - n, 0, ctx)
             return m - n
         elif t.is_uminus():
+            if t.arg.get_type() == NatType:
+                # uminus is declared at every type but has no meaning on nat.
+                raise Z3Exception("convert: unsupported uminus on natural numbers " + repr(t))
             return -rec(t.arg)
         elif t.is_times():
             return rec(t.arg1) * rec(t.arg)
